@@ -318,7 +318,7 @@ def cases(rng, tier):
     for a, b in pairs:
         yield Case(hist([mtok(a), mtok(b)], fills=(0,), seeds=(1,)), sorted({"pair", "history"} | song_tags(a) | song_tags(b)), "pairs")
     # ---- seeded random: lists of generated songs, excerpts of the shipped songs and IR songs
-    n = 40 if quick else 420
+    n = 90 if quick else 1400
     for i in range(n):
         k = rng.choice([1, 2, 3, 3, 4])
         songs, tags = [], {"random", "history" if k > 1 else "single", "list-len-%d" % k}
